@@ -57,6 +57,11 @@ func NewSet(prop string) *Set { return &Set{Property: prop, Counters: map[string
 
 func (s *Set) add(rule, construct, pos string, st Status, nontrivial bool, detail string, witness []string) *Obligation {
 	o := &Obligation{Property: s.Property, Rule: rule, Construct: construct, Pos: pos, Status: st, Detail: detail, Witness: witness, NonTrivial: nontrivial}
+	for _, old := range s.Obs {
+		if old.Key() == o.Key() && old.Status == o.Status && old.Pos == o.Pos {
+			return old
+		}
+	}
 	s.Obs = append(s.Obs, o)
 	return o
 }
@@ -93,6 +98,7 @@ func (s *Set) Floor(rule, what string, min, found int) bool {
 		s.Bad(rule, "floor:"+what, "", fmt.Sprintf("instance floor: expected at least %d %s, found %d (rule would pass vacuously)", min, what, found))
 		return false
 	}
+	s.OK(rule, "floor:"+what, "", fmt.Sprintf("%d instances (floor %d)", found, min), false)
 	return true
 }
 
